@@ -5,6 +5,7 @@ CONSTANTS
     ImplicitDirMode755 = TRUE
     LinksCountOnSource = TRUE
     SymlinkSizeFromTarget = TRUE
+    SpecialBitsIndependent = TRUE
     MkdevSplit = TRUE
     MemoOnlyHidesAbsent = TRUE
     AttrOpsEverywhere = TRUE
